@@ -548,6 +548,8 @@ var c03ImportRe = map[string]*regexp.Regexp{
 	"fmt":    regexp.MustCompile(`\bfmt\.`),
 	"sync":   regexp.MustCompile(`\bsync\.`),
 	"iter":   regexp.MustCompile(`\biter\.`),
+	"slices": regexp.MustCompile(`\bslices\.`),
+	"maps":   regexp.MustCompile(`\bmaps\.`),
 }
 
 var c03PreludeRe = func() map[string]*regexp.Regexp {
@@ -572,7 +574,7 @@ func c03Finish(s *c03Snippet) *c03Snippet {
 			s.Prelude = append(s.Prelude, name)
 		}
 	}
-	for _, imp := range []string{"errors", "fmt", "iter", "sync", "unsafe"} {
+	for _, imp := range []string{"errors", "fmt", "iter", "maps", "slices", "sync", "unsafe"} {
 		if c03ImportRe[imp].MatchString(s.Text) {
 			s.Imports = append(s.Imports, imp)
 		}
